@@ -710,6 +710,19 @@ impl Core {
         self.context.clone()
     }
 
+    /// `TlsDemux::select` of the currently installed demultiplexer (under the read lock)
+    pub(crate) fn verif_tls_select(
+        &self,
+        alpn: &[Vec<u8>],
+        sni: String,
+    ) -> Result<tls_demultiplexer::ConnectionMeta, String> {
+        self.context
+            .tls_demux
+            .read()
+            .unwrap()
+            .select(alpn.iter().map(Vec::as_slice), sni)
+    }
+
     pub(crate) fn verif_make_forwarder(&self) -> Box<dyn Forwarder> {
         Self::make_forwarder(self.context.clone())
     }
